@@ -4,7 +4,8 @@
 import json, subprocess, sys
 fid, prop, key, what = sys.argv[1:5]
 status = sys.argv[5] if len(sys.argv) > 5 else "fixed"
-h = subprocess.check_output(["git", "-C", "/repo", "log", "--format=%h", "-1"], text=True).strip()
+import os
+h = os.environ.get("FIX_COMMIT") or subprocess.check_output(["git", "-C", "/repo", "log", "--format=%h", "-1"], text=True).strip()
 p = "/verif/known_findings.json"
 d = json.load(open(p))
 e = {"id": fid, "property": prop, "key": key, "status": status, "what": what}
